@@ -390,6 +390,14 @@ func (vlog *valueLog) rewrite(bucket uint32, fid uint32) error {
 			return nil
 		}
 
+		if diskVP.Fid < fid || (diskVP.Fid == fid && diskVP.Offset < ptr.Offset) {
+			// The LSM still references an older record, so this one was never made visible: it was
+			// left behind by a write that did not reach the WAL (crash between the value-log append
+			// and the WAL append). It is garbage as well; re-inserting it would surface a value that
+			// recovery did not bring back.
+			return nil
+		}
+
 		ne := kv.EntryPool.Get().(*kv.Entry)
 		ne.IncrRef()
 		ne.Meta = 0
